@@ -49,6 +49,8 @@ type ObjDump struct {
 	Names    []string // ListAttributes
 	NamesErr string
 	Children []string
+	SliceErr string // ReadSlice of a centre block (Extra)
+	IterErr  string // chunk iterator pass (Extra)
 }
 
 // Dump is the logical content of a file as observed through the public read API.
@@ -61,8 +63,41 @@ type Dump struct {
 
 func recoverTo(dst *string) {
 	if r := recover(); r != nil {
-		*dst = fmt.Sprint(r) + " @" + PanicSite()
+		*dst = PanicMark + fmt.Sprint(r) + " @" + PanicSite()
 	}
+}
+
+// PanicMark prefixes the error text of a read call that panicked (the panic is
+// recovered per call so that the rest of the dump can proceed).
+const PanicMark = "PANIC: "
+
+// Panics lists the panics recovered inside individual read calls of a dump.
+func (d *Dump) Panics() []string {
+	var out []string
+	add := func(path, what, s string) {
+		if strings.HasPrefix(s, PanicMark) {
+			out = append(out, what+": "+strings.TrimPrefix(s, PanicMark))
+		}
+	}
+	if d.Panic != "" {
+		out = append(out, "open/walk: "+d.Panic)
+	}
+	for i := range d.Objs {
+		o := &d.Objs[i]
+		add(o.Path, "Info", o.InfoErr)
+		add(o.Path, "meta", o.MetaErr)
+		add(o.Path, "Read", o.F64Err)
+		add(o.Path, "ReadStrings", o.StrsErr)
+		add(o.Path, "ReadCompound", o.CompErr)
+		add(o.Path, "Attributes", o.AttrsErr)
+		add(o.Path, "ListAttributes", o.NamesErr)
+		add(o.Path, "ReadSlice", o.SliceErr)
+		add(o.Path, "ChunkIterator", o.IterErr)
+		for j := range o.Attrs {
+			add(o.Path, "ReadValue", o.Attrs[j].ValErr)
+		}
+	}
+	return out
 }
 
 // PanicSite must be called from a deferred function while a panic is being
@@ -87,6 +122,9 @@ func PanicSite() string {
 // DumpOpts selects which reads are performed.
 type DumpOpts struct {
 	SkipValues bool
+	// Extra also exercises ReadSlice of a centre block and a full chunk-iterator
+	// pass (used by the robustness check; results are not compared).
+	Extra bool
 }
 
 // DumpFile opens path and reads everything reachable.
@@ -253,6 +291,49 @@ func dumpDataset(f *hdf5.File, v *hdf5.Dataset, od *ObjDump, o DumpOpts) {
 			return
 		}
 		od.Comp = x
+	}()
+	if !o.Extra {
+		return
+	}
+	func() {
+		defer recoverTo(&od.SliceErr)
+		if len(od.Dims) == 0 || len(od.Dims) > 8 {
+			return
+		}
+		start := make([]uint64, len(od.Dims))
+		count := make([]uint64, len(od.Dims))
+		for i, d := range od.Dims {
+			start[i] = d / 4
+			count[i] = d / 2
+			if count[i] == 0 {
+				count[i] = 1
+			}
+			if count[i] > 64 {
+				count[i] = 64
+			}
+		}
+		if _, err := v.ReadSlice(start, count); err != nil {
+			od.SliceErr = err.Error()
+		}
+	}()
+	func() {
+		defer recoverTo(&od.IterErr)
+		it, err := v.ChunkIterator()
+		if err != nil {
+			od.IterErr = err.Error()
+			return
+		}
+		n := 0
+		for it.Next() && n < 100000 {
+			if _, err := it.Chunk(); err != nil {
+				od.IterErr = err.Error()
+				return
+			}
+			n++
+		}
+		if err := it.Err(); err != nil {
+			od.IterErr = err.Error()
+		}
 	}()
 }
 
